@@ -10,10 +10,12 @@ CONSTANTS
   Orders <- OrdersQuick
   SeqPaths = {"jsonbatch", "umsg"}
   MapPaths = {}
+  KeySets <- KeySetsQuick
+  KeyPaths = {"jsonbatch"}
   PTypings = {"absent", "str"}
   STypings = {"absent", "log", "trace"}
   Faithful = TRUE
 CHECK_DEADLOCK FALSE
-INVARIANTS TypeOK C21Belongs C21ConfiguredOrder C21Root C21OrderIndependent OnlyIdeal
+INVARIANTS TypeOK C21Belongs C21ConfiguredOrder C21Root C21OrderIndependent C21SamplerIndependent OnlyIdeal
 ACTION_CONSTRAINT Dump
 VIEW View
